@@ -4,7 +4,7 @@ from __future__ import annotations
 import ast
 
 from sa.cfg import CFG
-from sa.model import AnalysisError, FuncInfo, Model, walk_no_nested
+from sa.model import canon_text, AnalysisError, FuncInfo, Model, walk_no_nested
 from sa.report import Report
 from sa.util import check_unravel_2d
 
@@ -223,7 +223,7 @@ def run(m: Model, r: Report, tier: str) -> None:
     r.check(len(rc) == 1, "R7", f"{pi.qualname}#routine-sub-functions", "RoutineControl must be scanned for every RoutineControlSubFuncs member", loc=pi.loc)
     if len(rc) == 1 and loops:
         gi = CFG(pi.node)
-        conds_rc = [n for n in gi.nodes.values() if n.kind == "cond" and n.ast is not None and ast.unparse(n.ast).replace(" ", "") == "self.config.service==UDSIsoServices.RoutineControl"
+        conds_rc = [n for n in gi.nodes.values() if n.kind == "cond" and n.ast is not None and ast.unparse(n.ast) == canon_text("self.config.service == UDSIsoServices.RoutineControl")
                     and not any(n.ast is x for x in ast.walk(loops[0]))]
         asg_nodes = {n.id for n in gi.nodes.values() if n.ast is rc[0]}
         loop_nodes = {n.id for n in gi.nodes.values() if n.kind == "loop" and n.ast is loops[0]}
@@ -257,9 +257,9 @@ def run(m: Model, r: Report, tier: str) -> None:
     ibreaks = [n for n in ast.walk(loops[0]) if isinstance(n, ast.Break)] if loops else []
     okbr = all(any(isinstance(a, ast.If) and ast.unparse(a.test) == "self.config.skip_not_supported" and n in a.body for a in ast.walk(loops[0])) for n in ibreaks)
     r.check(okbr and len(ibreaks) <= 1, "R6", f"{pi.qualname}#no-early-end", "the identifier loop may only be left early under --skip-not-supported", loc=pi.loc)
-    svc_tests = [ast.unparse(n.test).replace(" ", "") for n in ast.walk(pi.node) if isinstance(n, ast.If) and "self.config.service" in ast.unparse(n.test)]
-    r.check(sorted(svc_tests) == sorted(["self.config.service==UDSIsoServices.RoutineControl", "self.config.service==UDSIsoServices.SecurityAccessandself.config.end>127",
-                                         "self.config.service==UDSIsoServices.SecurityAccess", "self.config.service==UDSIsoServices.RoutineControl"]), "R7",
+    svc_tests = [ast.unparse(n.test) for n in ast.walk(pi.node) if isinstance(n, ast.If) and "self.config.service" in ast.unparse(n.test)]
+    r.check(sorted(svc_tests) == sorted(canon_text(t_) for t_ in ["self.config.service == UDSIsoServices.RoutineControl", "self.config.service == UDSIsoServices.SecurityAccess and self.config.end > 127",
+                                                                  "self.config.service == UDSIsoServices.SecurityAccess", "self.config.service == UDSIsoServices.RoutineControl"]), "R7",
             f"{pi.qualname}#service-dispatch", f"service tests {svc_tests}", loc=pi.loc)
     chk_i = [ast.unparse(n.test).replace(" ", "") for n in ast.walk(pi.node) if isinstance(n, ast.If) and "self.config.check_session" in ast.unparse(n.test)]
     r.check(chk_i == [f"sessionisnotNoneandself.config.check_sessionand({DIDV}%self.config.check_session==0)"], "R5", f"{pi.qualname}#check-session",
